@@ -2,6 +2,7 @@ package props
 
 import (
 	"context"
+	"errors"
 	"fmt"
 	"runtime"
 	"sort"
@@ -122,3 +123,7 @@ func prototextFormatWith(m proto.Message, types *protoregistry.Types) string {
 }
 
 func runtimeGosched() { runtime.Gosched() }
+
+type protocompileErr = protocompile.PanicError
+
+func asPanic(err error, pe *protocompile.PanicError) bool { return errors.As(err, pe) }
